@@ -6,6 +6,7 @@ CONSTANTS
   MaxVer = 3
   MaxKills = 0
   MaxRuns = 1
+  Caches = TRUE
   Variant = "code"
 INVARIANTS Emit C24_ReportedMeansEqual
 CHECK_DEADLOCK FALSE
